@@ -6,7 +6,7 @@ for p in "$@"; do p=$(realpath "$p")
   d=$(mktemp -d /tmp/mt2_${pid}_XXXX)
   rsync -a --exclude _build --exclude .git /repo/ $d/repo/
   ( cd $d/repo && patch -p1 -s -i "$p" ) || { echo "APPLY-FAILED $p"; rm -rf $d; continue; }
-  out=$(VERIF_REPO=$d/repo VERIF_EVIDENCE_DIR=$d/ev VERIF_REPLAY_DIR=$d/rp VERIF_NO_REPLAY=1 /verif/check $pid quick $MUTEST_FLAGS 2>&1); rc=$?
+  out=$(VERIF_REPO=$d/repo VERIF_EVIDENCE_DIR=$d/ev VERIF_REPLAY_DIR=$d/rp VERIF_NO_REPLAY=${MUTEST2_NO_REPLAY-1} /verif/check $pid quick $MUTEST_FLAGS 2>&1); rc=$?
   echo "== $(basename $(dirname $p))/$(basename $p): exit=$rc"; echo "$out" | grep -E '^(VIOLATION|UNDECIDED|KNOWN)' | head -${LINES_MAX:-4} | cut -c1-260
   [ -n "$KEEP" ] && echo "scratch: $d" || rm -rf $d
 done
